@@ -40,11 +40,11 @@ StringsOver(A, first, n) == IF first = 0 THEN {<< >>}
 VF(fl, w, d) == [flags |-> fl, width |-> w, dec |-> d]
 
 IntFormatsQ == {VF(fl, w, 0) : fl \in {0, 1, 2, 256, 257, 512, 4}, w \in {0, 3}} \cup {VF(768, 5, 0)}
-FltFormatsQ == {VF(fl, 0, d) : fl \in {0, 32, 288}, d \in {0, 2, 3}} \cup {VF(0, 7, 2), VF(32, 7, 0), VF(16, 0, 2), VF(64, 0, 1), VF(512, 9, 1)}
+FltFormatsQ == {VF(fl, 0, d) : fl \in {0, 32}, d \in {0, 2, 3}} \cup {VF(288, 7, 2), VF(16, 0, 2), VF(64, 0, 1), VF(512, 9, 1)}
 IntFormatsT == {VF(fl, w, 0) : fl \in {0, 1, 2, 3, 256, 257, 258, 512, 513, 4, 8}, w \in {0, 2, 3, 5}}
 FltFormatsT == {VF(fl, w, d) : fl \in {0, 32, 288}, w \in {0, 9}, d \in {0, 1, 2, 3, 4}} \cup {VF(16, 0, 2), VF(64, 0, 1), VF(512, 5, 2)}
-IntFormatsG == {VF(fl, w, 0) : fl \in {0, 1, 2, 256}, w \in {0, 7}} \cup {VF(513, 30, 0), VF(4, 0, 0)}
-FltFormatsG == {VF(0, 0, 0), VF(0, 0, 3), VF(32, 0, 8), VF(32, 30, 16), VF(16, 0, 13)}
+IntFormatsG == {VF(fl, 0, 0) : fl \in {0, 1, 2, 256}} \cup {VF(1, 7, 0), VF(513, 30, 0), VF(4, 0, 0)}
+FltFormatsG == {VF(0, 0, 0), VF(0, 0, 3), VF(32, 30, 16), VF(16, 0, 13)}
 IntFormatsGT == {VF(fl, w, 0) : fl \in {0, 1, 2, 256, 257}, w \in {0, 7}} \cup {VF(513, 30, 0), VF(4, 0, 0)}
 FltFormatsGT == {VF(0, 0, 0), VF(256, 12, 0), VF(0, 0, 3), VF(32, 0, 8), VF(32, 30, 16), VF(32, 0, 20), VF(0, 0, 40), VF(16, 0, 13), VF(288, 0, 17),
                  VF(512, 9, 2), VF(64, 0, 2), VF(1, 0, 5)}
